@@ -75,6 +75,10 @@ ALLOWED_ELEMWISE: Set[str] = {
     "Clip",
 }
 
+# Members of ALLOWED_ELEMWISE whose additional operands are data (not just a dtype
+# carrier like CastLike): folding across them is only sound for scalar constants.
+_VALUE_OPERAND_ELEMWISE: Set[str] = {"Max", "Min", "Clip"}
+
 # Elementwise ops that are layout-invariant (used for transpose folding)
 ELEMENTWISE_UNARY_OPS: Set[str] = {
     "Elu",
@@ -1675,10 +1679,22 @@ def remove_redundant_transpose_pairs_ir(graph: ir.Graph) -> None:
                 cur = consumers[0]
                 T2: Optional[ir.Node] = None
                 steps = 0
+                chain_val = T1_out
                 while steps < 8:
                     steps += 1
                     m = cur
                     if m.op_type in ALLOWED_ELEMWISE:
+                        # Max/Min/Clip are only layout-invariant here when every other
+                        # operand is a scalar constant; a tensor operand would keep the
+                        # transposed layout while the chain value loses it.
+                        if m.op_type in _VALUE_OPERAND_ELEMWISE and any(
+                            other is not None
+                            and other is not chain_val
+                            and not _is_scalar_const_value(other)
+                            for other in _node_inputs(m)
+                        ):
+                            break
+                        chain_val = _node_output(m)
                         chain_nodes.append(m)
                         allowed_nodes.append(m)
                         cur_val = _node_output(m)
@@ -1825,6 +1841,13 @@ def remove_redundant_reshape_pairs_ir(graph: ir.Graph) -> None:
                 if (
                     prod_node.op_type in ALLOWED_ELEMWISE
                     and (getattr(prod_node, "domain", "") or "") == ""
+                    and (
+                        prod_node.op_type not in _VALUE_OPERAND_ELEMWISE
+                        or all(
+                            other is None or _is_scalar_const_value(other)
+                            for other in _node_inputs(prod_node)[1:]
+                        )
+                    )
                 ):
                     allowed_nodes.append(prod_node)
                     v = _first_input(prod_node)
